@@ -111,7 +111,7 @@ public:
 	explicit operator int() const { return to_int(); }
 	explicit operator unsigned long long() const { return to_long_long(); }
 	explicit operator unsigned long() const { return to_long(); }
-	explicit operator unsigned int() const { return to_int(); }
+	explicit operator unsigned int() const { return (unsigned int)(to_long()); }
 
 	constexpr posit operator-() const {
 		posit p;
